@@ -150,6 +150,25 @@ fn attempts(cfg: &Cfg, tier: Tier) -> Vec<Attempt> {
                 out.push(a);
             }
         }
+        // the opening (0, all-zero blinding factors): its commitment is the identity element, the witness is valid
+        for promise in [None, Some(0u64)] {
+            let mut a = base.clone();
+            a.name = format!("opening[{}]=zero-value-zero-blindings,promise={:?}", j, promise);
+            a.commit_values[j] = 0;
+            a.open_values[j] = 0;
+            a.commit_blindings[j] = vec![Scalar::ZERO; cfg.d];
+            a.open_blindings[j] = vec![Scalar::ZERO; cfg.d];
+            a.promises[j] = promise;
+            out.push(a);
+        }
+        // a zero blinding factor in front of non-zero ones (valid)
+        if cfg.d >= 2 {
+            let mut a = base.clone();
+            a.name = format!("opening[{}].blinding[0]=0(matching commitment)", j);
+            a.commit_blindings[j][0] = Scalar::ZERO;
+            a.open_blindings[j][0] = Scalar::ZERO;
+            out.push(a);
+        }
         // promises around the value
         let vj = base.open_values[j];
         let mut ps = vec![vj, vj.saturating_add(1), u64::MAX, vj.saturating_sub(1), 0];
@@ -228,31 +247,33 @@ fn attempt_case<P: G>(cfg: Cfg, a: Attempt) -> Box<dyn Case> {
             },
         };
         let expect = valid(&cfg, &a);
+        // both entry points: the caller's generator, and the one that takes its randomness from the operating system
+        for entry in ["prove", "prove-os"] {
         let mut t = CTX_A.transcript();
-        let r = catch(|| P::prove(&mut t, &st, &wit, &mut HRng::chacha(31)));
+        let r = catch(|| if entry == "prove" { P::prove(&mut t, &st, &wit, &mut HRng::chacha(31)) } else { P::prove_os(&mut t, &st, &wit) });
         res.executions += 1;
         res.validated += 1;
         match r {
             Err(p) => {
                 res.outcome = "prover-panic".into();
-                res.violate("prove", format!("prover panicked instead of returning an error: {}", p));
+                res.violate(entry, format!("prover panicked instead of returning an error: {}", p));
             },
             Ok(Err(e)) => {
                 res.outcome = format!("refused:{}", crate::api::err_kind(&e));
                 if expect {
-                    res.violate("prove", format!("valid witness refused: {}", crate::api::err_name(&e)));
+                    res.violate(entry, format!("valid witness refused: {}", crate::api::err_name(&e)));
                 }
             },
             Ok(Ok(proof)) => {
                 res.outcome = "proof".into();
                 if !expect {
-                    res.violate("prove", "prover emitted a proof for an invalid witness");
+                    res.violate(entry, "prover emitted a proof for an invalid witness");
                 }
                 // whenever it returns a proof that proof verifies (library and reference)
                 let obs = verify_observed_one(&st, &proof, &CTX_A, VerifyAction::VerifyOnly);
                 res.executions += 1;
                 if !obs.is_ok() {
-                    res.violate("verify", format!("the emitted proof does not verify: {}", obs.describe()));
+                    res.violate(format!("{}/verify", entry), format!("the emitted proof does not verify: {}", obs.describe()));
                 }
                 if let Some(rp) = ref_proof_of(&proof) {
                     let rst = ref_statement(&st);
@@ -265,6 +286,7 @@ fn attempt_case<P: G>(cfg: Cfg, a: Attempt) -> Box<dyn Case> {
                 }
             },
         }
+        }
         res.sample = Some(json!({"cfg": cfg.key(), "attempt": a.name, "valid": expect}));
         res
     })
@@ -273,9 +295,9 @@ fn attempt_case<P: G>(cfg: Cfg, a: Attempt) -> Box<dyn Case> {
 pub fn run(rep: &mut Report) {
     rep.rule = "configuration lattice x {valid default; each single violation of the witness relation at each position: opening count \
                 m/2, m+1, 2m; witness degree d+/-1; value +/-1 against unchanged commitment; each blinding component +1; boundary values \
-                2^n-1, 2^n, 2^n+1, u64::MAX, 0 with matching commitment; promise in {v-1, v, v+1, 0, u64::MAX}}; full (value x promise) \
+                2^n-1, 2^n, 2^n+1, u64::MAX, 0 with matching commitment; the opening (0, zero blinding factors) whose commitment is the identity; a zero leading blinding factor; promise in {v-1, v, v+1, 0, u64::MAX}}; full (value x promise) \
                 product incl. invalid ones when bits*aggregation <= 4; oracle: independent validity predicate; Ok <=> valid; every Ok proof \
-                verifies (library + reference); refusals are errors not panics"
+                verifies (library + reference); refusals are errors not panics; every attempt through both entry points (caller's generator, OS randomness)"
         .into();
     let tier = rep.tier;
     let mut cases: Vec<Box<dyn Case>> = Vec::new();
